@@ -7,7 +7,8 @@ variable {N K : Type} [DecidableEq N] [DecidableEq K]
 
 theorem step_ffinal_mismatch_eq (cfg : Cfg N K) (hs : SumOK cfg) (s : St N K) (n : N) (k : K) (c d : Content)
     (hf : s.files n k = some c) (hp : progress (s.fph n k) = some (chunks cfg.cs c).length)
-    (hne : n ≠ cfg.fowner k) (hpos : 0 < (chunks cfg.cs c).length)
+    (hne : n ≠ cfg.fowner k) (hus : cfg.up n = true) (huo : cfg.up (cfg.fowner k) = true)
+    (hpos : 0 < (chunks cfg.cs c).length)
     (hd : s.files (cfg.fowner k) k = some d) (hdc : d ≠ c) :
     step cfg (.ffinal n k) s =
       clearVolatile { s with files := upd s.files (cfg.fowner k) k (some d) } n true := by
@@ -17,16 +18,17 @@ theorem step_ffinal_mismatch_eq (cfg : Cfg N K) (hs : SumOK cfg) (s : St N K) (n
     unfold recvWrite
     rw [if_neg (by rintro ⟨h, _⟩; omega)]; simp
   have hsum : cfg.sum c ≠ cfg.sum d := fun e => hdc (hs.inj _ _ e).symm
-  simp [hne, hd, hw, replySum, hpos, hsum]
+  simp [hne, hd, hw, replySum, hpos, hsum, hus, huo]
 
 theorem step_ffinal_empty_eq (cfg : Cfg N K) (hs : SumOK cfg) (s : St N K) (n : N) (k : K)
-    (hf : s.files n k = some []) (hp : progress (s.fph n k) = some 0) (hne : n ≠ cfg.fowner k) :
+    (hf : s.files n k = some []) (hp : progress (s.fph n k) = some 0) (hne : n ≠ cfg.fowner k)
+    (hus : cfg.up n = true) (huo : cfg.up (cfg.fowner k) = true) :
     step cfg (.ffinal n k) s =
       clearVolatile { s with files := upd s.files (cfg.fowner k) k (some (recvWrite cfg.trunc0 (s.files (cfg.fowner k) k) 0 [])) } n true := by
   unfold step
   have hch : (chunks cfg.cs []).length = 0 := by simp [chunks, chunksFuel]
   simp only [enabled, apply, hf, hp, hch]
-  simp [hne, replySum, hs.empty_ne_zero]
+  simp [hne, replySum, hs.empty_ne_zero, hus, huo]
 
 /-- node `n` re-sends shard `k` onto a left-over `j` at the owner; `i` chunks have been appended -/
 structure SendingP (cfg : Cfg N K) (n : N) (k : K) (c j : Content) (i : Nat) (s : St N K) : Prop where
@@ -35,7 +37,8 @@ structure SendingP (cfg : Cfg N K) (n : N) (k : K) (c j : Content) (i : Nat) (s 
   dst  : s.files (cfg.fowner k) k = some (j ++ ((chunks cfg.cs c).take i).flatten)
 
 theorem sendFrom_pinned (cfg : Cfg N K) (hs : SumOK cfg) (htr : cfg.trunc0 = false) (hcs : 0 < cfg.cs)
-    (n : N) (k : K) (c j : Content) (hne : n ≠ cfg.fowner k) (hc : c ≠ []) (hj : j ≠ []) :
+    (n : N) (k : K) (c j : Content) (hne : n ≠ cfg.fowner k) (hus : cfg.up n = true)
+    (huo : cfg.up (cfg.fowner k) = true) (hc : c ≠ []) (hj : j ≠ []) :
     ∀ (fuel i : Nat) (s : St N K), i + fuel = (chunks cfg.cs c).length → SendingP cfg n k c j i s →
       (sendFrom cfg noFault n k fuel i s).failed n = true ∧
       (sendFrom cfg noFault n k fuel i s).files n k = some c ∧
@@ -56,7 +59,7 @@ theorem sendFrom_pinned (cfg : Cfg N K) (hs : SumOK cfg) (htr : cfg.trunc0 = fal
       exact hj this
     simp only [sendFrom]
     rw [if_neg (by simp [noFault])]
-    rw [step_ffinal_mismatch_eq cfg hs s n k c (j ++ c) hS.file hS.prog hne hpos hd hdc]
+    rw [step_ffinal_mismatch_eq cfg hs s n k c (j ++ c) hS.file hS.prog hne hus huo hpos hd hdc]
     have hdis : enabled cfg (clearVolatile { s with files := upd s.files (cfg.fowner k) k (some (j ++ c)) } n true)
         (.fremove n k) = false := by
       simp [enabled, clearVolatile]
@@ -74,7 +77,7 @@ theorem sendFrom_pinned (cfg : Cfg N K) (hs : SumOK cfg) (htr : cfg.trunc0 = fal
     rw [if_neg (by simp [noFault])]
     have hcor : corruptFor (noFault : Fault N K) k i = none := rfl
     rw [hcor]
-    have e := step_fchunk_eq cfg s n k c i hS.file hS.prog hne hlt none
+    have e := step_fchunk_eq cfg s n k c i hS.file hS.prog hne hus huo hlt none
     have hS' : SendingP cfg n k c j (i + 1) (step cfg (.fchunk n k none) s) := by
       rw [e]
       refine ⟨?_, by simp [upd, progress], ?_⟩
@@ -95,7 +98,8 @@ def retries (cfg : Cfg N K) (n : N) (k : K) : Nat → St N K → St N K
   | r + 1, s => retries cfg n k r (retry cfg n k s)
 
 theorem retry_pinned (cfg : Cfg N K) (hs : SumOK cfg) (htr : cfg.trunc0 = false) (hcs : 0 < cfg.cs)
-    (n : N) (k : K) (c j : Content) (hne : n ≠ cfg.fowner k) (hc : c ≠ []) (hj : j ≠ []) (s : St N K)
+    (n : N) (k : K) (c j : Content) (hne : n ≠ cfg.fowner k) (hus : cfg.up n = true)
+    (huo : cfg.up (cfg.fowner k) = true) (hc : c ≠ []) (hj : j ≠ []) (s : St N K)
     (hf : s.files n k = some c) (hd : s.files (cfg.fowner k) k = some j) :
     (retry cfg n k s).failed n = true ∧ (retry cfg n k s).files n k = some c ∧
       (retry cfg n k s).files (cfg.fowner k) k = some (j ++ c) := by
@@ -106,12 +110,13 @@ theorem retry_pinned (cfg : Cfg N K) (hs : SumOK cfg) (htr : cfg.trunc0 = false)
   have hf' : (clearVolatile s n false).files n k = some c := hf
   rw [hf']
   simp only
-  rw [if_neg (by simp [noFault])]
-  exact sendFrom_pinned cfg hs htr hcs n k c j hne hc hj _ 0 _ (by omega)
+  rw [if_neg (by simp [noFault, huo])]
+  exact sendFrom_pinned cfg hs htr hcs n k c j hne hus huo hc hj _ 0 _ (by omega)
     ⟨hf, by simp [clearVolatile, progress], by show s.files _ _ = _; simp [hd]⟩
 
 theorem retries_pinned (cfg : Cfg N K) (hs : SumOK cfg) (htr : cfg.trunc0 = false) (hcs : 0 < cfg.cs)
-    (n : N) (k : K) (c : Content) (hne : n ≠ cfg.fowner k) (hc : c ≠ []) :
+    (n : N) (k : K) (c : Content) (hne : n ≠ cfg.fowner k) (hus : cfg.up n = true)
+    (huo : cfg.up (cfg.fowner k) = true) (hc : c ≠ []) :
     ∀ (r : Nat) (j : Content) (s : St N K), j ≠ [] → s.files n k = some c → s.files (cfg.fowner k) k = some j →
       (retries cfg n k (r + 1) s).failed n = true ∧ (retries cfg n k (r + 1) s).files n k = some c ∧
       ∃ j', j' ≠ [] ∧ j'.length = j.length + (r + 1) * c.length ∧
@@ -120,11 +125,11 @@ theorem retries_pinned (cfg : Cfg N K) (hs : SumOK cfg) (htr : cfg.trunc0 = fals
   induction r with
   | zero =>
     intro j s hj hf hd
-    obtain ⟨a, b, d⟩ := retry_pinned cfg hs htr hcs n k c j hne hc hj s hf hd
+    obtain ⟨a, b, d⟩ := retry_pinned cfg hs htr hcs n k c j hne hus huo hc hj s hf hd
     exact ⟨a, b, j ++ c, by simp [hj], by simp, d⟩
   | succ r ih =>
     intro j s hj hf hd
-    obtain ⟨_, b, d⟩ := retry_pinned cfg hs htr hcs n k c j hne hc hj s hf hd
+    obtain ⟨_, b, d⟩ := retry_pinned cfg hs htr hcs n k c j hne hus huo hc hj s hf hd
     obtain ⟨x, y, j', z1, z2, z3⟩ := ih (j ++ c) (retry cfg n k s) (by simp [hj]) b d
     refine ⟨x, y, j', z1, ?_, z3⟩
     rw [z2]; simp [Nat.add_mul]; omega
